@@ -125,6 +125,7 @@ type c16Case struct {
 	ready   bool
 	stuck   bool // Status does not answer any more
 	pending chan string // an inject that has not returned (yet)
+	sharedErp *interpreter.ECALRuntimeProvider
 	mu      sync.Mutex
 }
 
@@ -172,9 +173,12 @@ func (g *c16Spin) Run(instanceID string, vs parser.Scope, is map[string]interfac
 func (g *c16Spin) DocString() (string, error) { return "spin", nil }
 
 func (c *c16Case) start(tid uint64, name, src string) {
-	erp := interpreter.NewECALRuntimeProvider(name, nil, &memLog{})
-	erp.Debugger = c.dbg
-	c.erps = append(c.erps, erp)
+	erp := c.sharedErp // threads of one provider share its mutex table
+	if erp == nil {
+		erp = interpreter.NewECALRuntimeProvider(name, nil, &memLog{})
+		erp.Debugger = c.dbg
+		c.erps = append(c.erps, erp)
+	}
 	tree, err := parser.ParseWithRuntime(name, src, erp)
 	if err == nil {
 		err = tree.Runtime.Validate()
@@ -680,6 +684,8 @@ func c16Exec(scn string, gsGiven bool, lines []string, rec []c16Step, obs0 strin
 			}
 			classes = append(classes, cl)
 			if cl == "HANG" {
+				st.obs = "?"
+				out = append(out, st)
 				return o0, out, strings.Join(classes, ",") + " HANG"
 			}
 		}
@@ -732,15 +738,24 @@ func c16Conc() string {
 	c.dbg = interpreter.NewECALDebugger(c.gs)
 	c16Cur.Store(c)
 	c16Cases.Store(c.gs, c)
+	c.sharedErp = interpreter.NewECALRuntimeProvider("prog", nil, &memLog{})
+	c.sharedErp.Debugger = c.dbg
+	c.erps = append(c.erps, c.sharedErp)
 	c.dbg.BreakOnStart(true)
 	c.start(1, "prog", sb.String())
 	defer c.end()
 	if !c.quiesce() {
 		return "NOQUIESCE init"
 	}
+	// two more threads of the same provider loop over two mutex blocks while the case lasts: the
+	// provider's table of mutex owners (which `lockstate` reports) changes all the time
+	mtx := "for x.spin() {\n    mutex ma {\n        q := 1\n    }\n    mutex mb {\n        q := 2\n    }\n}\n"
+	c.start(3, "mtx", mtx)
+	c.start(4, "mtx", mtx)
 	var bad atomic.Value
 	note := func(cl string) {
-		if cl != "ok" {
+		// an error reply is fine here (the thread may be running when extract / inject arrive)
+		if cl != "ok" && cl != "error" {
 			bad.CompareAndSwap(nil, cl)
 		}
 	}
@@ -766,6 +781,7 @@ func c16Conc() string {
 		}
 		return "ok"
 	}
+	t0 := time.Now()
 	stop := make(chan struct{})
 	finished := make(chan struct{})
 	var wg sync.WaitGroup
@@ -781,6 +797,9 @@ func c16Conc() string {
 			note(class("break prog:900"))
 			note(class("rmbreak prog:900"))
 			note(class("disablebreak prog:901"))
+			note(class("breakonstart false"))
+			note(class("extract 1 a dst"))
+			note(class("inject 1 b 1+1"))
 		}
 	}()
 	go func() { // C: readers
@@ -793,6 +812,9 @@ func c16Conc() string {
 			}
 			note(class("status"))
 			note(class("describe 1"))
+			note(class("lockstate"))
+			note(class("describe 3"))
+			note(class("nosuchcmd 1"))
 		}
 	}()
 	go func() { // A
@@ -810,6 +832,11 @@ func c16Conc() string {
 				}
 				time.Sleep(5 * time.Microsecond)
 			}
+		}
+		// readers and writers get at least a second against the running mutex threads
+		for time.Since(t0) < time.Second {
+			note(class("cont 4 resume"))
+			time.Sleep(time.Millisecond)
 		}
 		close(stop)
 		wg.Wait()
